@@ -1,6 +1,6 @@
 #!/bin/bash
 # usage: store_seed.sh <Cxx> <a|b> <caught:yes|no> <checked_by (comma separated)> <one-line note>
-id="$1$2"; src="/tmp/seed/$1/out/$2"; dst="/verif/seeded/$id"
+id="$1$2"; src="${SEEDROOT:-/tmp/seed}/$1/out/$2"; dst="/verif/seeded/$id"
 mkdir -p "$dst" && cp "$src/patch.diff" "$dst/" && rm -rf "$dst/demo" && cp -r "$src/demo" "$dst/demo" && cp "$src/README.md" "$dst/README.md"
 python3 - "$1" "$2" "$3" "$4" "$5" <<'PY'
 import json,sys,re
